@@ -112,6 +112,9 @@ class CentralizedTaskingEngine(TaskingEngine):
                 )
             self._reward_executor.join()
 
+            # [NOTE]: Rewards are calculated before the reward generation events are handled, so that a
+            #   `TargetTaskPriority` scales the rewards the decision is made from (not the zeroed matrix).
+            self.calculateRewards()
             handleRelevantEvents(
                 self,
                 self._database,
@@ -121,7 +124,6 @@ class CentralizedTaskingEngine(TaskingEngine):
                 self.logger,
                 scope_instance_id=self.unique_id,
             )
-            self.calculateRewards()
             self.generateTasking()
 
             self.logger.debug("Executing tasking strategy...")
